@@ -4,6 +4,7 @@ C03, C06, C11, C13."""
 from astdb import AnalysisBroken
 from interp import Interp, Obj, Cell, Ptr, Region, Thrown, Unsupported, UNDEF, ITE
 from kernels import KernelHooks, make_suv, GslMatrix, SUV
+from gslmodel import GslHooks
 from poly import Poly, CPoly, mat_zero
 
 DIMS = (2, 3, 4, 5, 6)
@@ -40,7 +41,7 @@ def extract_S(db, d, prefix='c'):
         return _cache[key]
     unit = db.unit('SUNalg')
     f = f_getgslmatrix(db)
-    hooks = KernelHooks()
+    hooks = GslHooks()
     this, reg = make_suv('v', d, prefix)
     m = GslMatrix(d, d)
     it = Interp(unit, hooks)
@@ -126,7 +127,7 @@ def run_matrix_ctor(db, d, entry):
     returns (object, components region, hooks)"""
     unit = db.unit('SUNalg')
     f = f_matrix_ctor(db)
-    hooks = KernelHooks()
+    hooks = GslHooks()
     m = GslMatrix(d, d, entry, 'm')
     this = Cell(Obj(SUV, None, 'v'), None, 0, 'v')
     it = Interp(unit, hooks)
@@ -139,7 +140,7 @@ def run_cfm(db, d, re, im):
     """ComponentsFromMatrices(components, dim, m_real, m_imag) on zero-filled components"""
     unit = db.unit('SUNalg')
     f = f_components_from_matrices(db)
-    hooks = KernelHooks()
+    hooks = GslHooks()
     comp = Region('components', d * d, lambda k: Poly.const(0), 'heap')
 
     def arr(name, fn):
